@@ -365,10 +365,7 @@ func (e *Explorer) ForkValue(t *smt.Term, signed bool, site string) int64 {
 			}
 		}
 		for len(vals) < limit+1 {
-			as := append(append([]*smt.Term{}, e.pc...), excl...)
-			e.collectVars(t)
-			vars := e.pcVars
-			r, m := e.Solver.Check(as, vars)
+			r, cm := e.query(e.Ctx.BAnd(excl...))
 			if r == smt.Unknown {
 				e.noteAbort("solver unknown in value fork at " + site)
 				break
@@ -376,12 +373,6 @@ func (e *Explorer) ForkValue(t *smt.Term, signed bool, site string) int64 {
 			if r == smt.Unsat {
 				break
 			}
-			env := map[string]uint64{}
-			for _, v := range vars {
-				env[v.Name] = m[v.Ref()]
-			}
-			e.addModel(env)
-			cm := e.models[len(e.models)-1]
 			add(smt.Eval(t, cm.env, cm.memo))
 		}
 		if len(vals) > limit {
